@@ -25,9 +25,10 @@
 (*                         planned set is empty                               *)
 (*   TieBreakByOrder       of two equally loaded shards scraping the same target  *)
 (*                         in the same state, the later one drops its copy       *)
-(*   TooBigSkipped         relief passes over a too big target (its size is not part of   *)
-(*                         what the relief can shed) instead of giving the shard up, so   *)
-(*                         that what is moved does not depend on the order of the targets *)
+(*   TooBigSkipped         relief passes over a too big target (its size, if it was counted,  *)
+(*                         is not part of what the relief can shed; head relief with one     *)
+(*                         passed over reports no needed room) instead of giving the shard   *)
+(*                         up, so that what is moved does not depend on the order            *)
 (*   ZeroNeedsPlace        an unplaced target whose estimate is 0 / 0 counts as needed  *)
 (*                         space (1), so that a shard is requested for it                *)
 (*   RevertOrphanTransfer  an in_transfer copy (scraped MinWait times) that no other   *)
@@ -218,7 +219,7 @@ AllevP ==
                    IN IF ProcTooBig(e)
                         THEN IF TooBigSkipped
                                THEN \* it stays whatever else is moved: not part of what this relief can shed
-                                    tot' = tot - e.total /\ vis' = vis \cup {t} /\ UNCHANGED <<pc, cur, pl, ld, need>>
+                                    tot' = tot - (IF ProcElig(e) THEN e.total ELSE 0) /\ vis' = vis \cup {t} /\ UNCHANGED <<pc, cur, pl, ld, need>>
                                ELSE NextShardP /\ UNCHANGED <<pc, pl, ld, need>>   \* return 0
                       ELSE IF dst = {}
                         THEN vis' = vis \cup {t} /\ UNCHANGED <<pc, cur, tot, pl, ld, need>>
@@ -253,7 +254,9 @@ AllevH ==
      ELSE LET ex   == sps[1]
               cand == {t \in (DOMAIN pl[cur]) \ vis : Eligible(pl[cur][t]) \/ (TooBigFirst /\ HeadTooBig(pl[cur][t]))} IN
           IF tot <= ex \/ cand = {}
-            THEN /\ need' = [need EXCEPT !.head = @ + (IF tot > ex THEN tot - ex ELSE 0)]
+            THEN \* the expectation was chosen from a load the too big target is part of: with one passed over, what is left
+                 \* is not reported as needed room
+                 /\ need' = [need EXCEPT !.head = @ + (IF tot > ex /\ ~(TooBigSkipped /\ \E t \in vis : HeadTooBig(pl[cur][t])) THEN tot - ex ELSE 0)]
                  /\ NextShardP /\ UNCHANGED <<pc, pl, ld, sps>>
             ELSE \E t \in cand :
                    LET e == pl[cur][t]
@@ -262,7 +265,7 @@ AllevH ==
                                  /\ (HeadReliefChecksProc => ProcRoom(ld[o], e))}
                    IN IF HeadTooBig(e)
                         THEN IF TooBigSkipped
-                               THEN tot' = tot - e.series /\ vis' = vis \cup {t} /\ UNCHANGED <<pc, cur, pl, ld, need, sps>>
+                               THEN tot' = tot - (IF Eligible(e) THEN e.series ELSE 0) /\ vis' = vis \cup {t} /\ UNCHANGED <<pc, cur, pl, ld, need, sps>>
                                ELSE NextShardP /\ UNCHANGED <<pc, pl, ld, need, sps>>   \* return 0
                       ELSE IF dst = {}
                         THEN vis' = vis \cup {t} /\ UNCHANGED <<pc, cur, tot, pl, ld, need, sps>>
